@@ -16,7 +16,7 @@ sequences over <= 4 (quick) / <= 5 (thorough) keys for keyed lists and leaf-list
 import json, os
 from vlib import treegen as tg, paths
 
-LEAN_TARGETS = ["LyModel.Props.C06", "LyModel.Props.C06UO", "LyModel.Props.C06UOList", "LyModel.Props.C06UONb"]
+LEAN_TARGETS = ["LyModel.Props.C06", "LyModel.Props.C06UO", "LyModel.Props.C06UOList", "LyModel.Props.C06UONb", "LyModel.Props.C06UONest"]
 AUDIT = "Audit/C06.lean"
 HARNESS = "api_diff"
 COMP = "diff"
@@ -458,7 +458,9 @@ def theorem_cases(cx, head, cases, tag):
         A, B = tg.untok(c.s, c.a), tg.untok(c.s, c.b)
         tops = A + B
         # cheap necessary condition (the driver decides): a user-ordered (leaf-)list has instances at the top level
-        if not any(n.sn.kind in ("leaflist", "list") and n.sn.is_userord() for n in tops):
+        if not any(n.sn.kind in ("leaflist", "list") and n.sn.is_userord() for n in tops) and not (
+                len(A) == 1 and len(B) == 1 and A[0].sn is B[0].sn and A[0].sn.kind == "container"
+                and any(n.sn.kind == "leaflist" and n.sn.is_userord() for n in A[0].kids + B[0].kids)):
             cx.dist["thm:apply_diff_userord_flat:hypotheses-fail"] += 1
             continue
         i = "h%s%d" % (tag, k)
@@ -474,15 +476,22 @@ def theorem_cases(cx, head, cases, tag):
         if r[0] != "ok":
             cx.disagree(COMP, l, ["ok", "?"], r)
             continue
-        if r[1] not in ("1", "2", "3"):
+        if r[1] not in ("1", "2", "3", "4"):
             cx.dist["thm:apply_diff_userord_flat:hypotheses-fail"] += 1
             continue
         # flatLL (leaf-list alone) / flatKL (single-key list, key-only instances) / nbLL (leaf-list between inert neighbours)
-        thm = {"1": "ll", "2": "kl", "3": "ll_neighbours"}[r[1]]
+        # contLL (both trees one container holding the leaf-list between inert neighbours)
+        thm = {"1": "ll", "2": "kl", "3": "ll_neighbours", "4": "ll_in_container"}[r[1]]
         cx.dist["thm:apply_diff_userord_flat_%s:hypotheses-hold" % thm] += 1
         c.feat[1] = sorted(set(c.feat.get(1, [])) | {"thm-userord-flat-" + thm})
         core = r[3:]
-        impl = core_ops_of_diff(c.D[1], keyed=(thm == "kl"))
+        if thm == "ll_in_container":
+            # the diff is one copy of the container with operation=none holding the operations (or empty)
+            D = c.D[1]
+            ok_shape = not D or (len(D) == 1 and D[0].sn is A[0].sn and meta(D[0], "operation") == b"none")
+            impl = core_ops_of_diff(D[0].kids) if D and ok_shape else ([] if ok_shape else ["?shape"])
+        else:
+            impl = core_ops_of_diff(c.D[1], keyed=(thm == "kl"))
         cx.count(("uocore", c.s.name, c.a, c.b), bool(core), "diff:uocore-%s:%s" % (thm, "ops" if core else "empty"))
         if impl != core:
             cx.dist["thm:apply_diff_userord_flat_%s:libyang-diff-differs-from-core" % thm] += 1
